@@ -152,6 +152,14 @@ def run(ctx):
                     cases.append({'kind': 'same', 'a': a['obs'], 'b': b['obs'], '_orig': a['_texts'], '_inlined_rule': n,
                                   '_inlined_text': paste(texts[n], d[n], p, '(' + texts[target_name] + ')'), '_call': a['_call'], '_creds': a['_creds'], '_dflt': a['_dflt']})
                     n_inl += 1
+    # the scope gate belongs to the enforced name: aliases of a scoped registered policy are not gated
+    for scopes in (['system'], ['project'], ['domain']):
+        for cred_scope in ({'system_scope': 'all'}, {'project_id': 'p'}, {'domain_id': 'd'}):
+            rules = [('p:q', ev.role('r1')), ('p:alias', ev.rule('p:q')), ('p:chain', ev.rule('p:alias')), ('p:mix', ev.Or(ev.rule('p:q'), ev.F))]
+            for qn in ('p:q', 'p:alias', 'p:chain', 'p:mix'):
+                for doraise in (0, 1):
+                    cases.append(ec.enforce_case(rules, {'by': 'name', 'name': qn, 'doraise': doraise}, {}, dict({'roles': ['r1'], 'f': []}, **cred_scope),
+                                                 dflt=('opt', None), registered=[('p:q', scopes)], want='c06'))
     # sessions: a reference is resolved against the definition that is current at the time of
     # the call - the rule store of a long-lived enforcer is replaced / merged between calls
     sessions = []
